@@ -1,9 +1,1120 @@
-//! C10 — (stub; not built yet)
+//! C10 — Grid::rcb yields balanced boxes and terminates for any thread count.
+//!
+//! ops (`<T>` = rayon pool size, `<mode>` = `i` for `i64` weights, `f` for the same
+//! integers as `f64` weights):
+//!   `rcb2 <T> <mode> <w> <h> <iter> <plen> <n> <w_0> … <w_{n-1}>`      → `ids <id…>` (`plen` entries)
+//!   `rcb3 <T> <mode> <w> <h> <d> <iter> <plen> <n> <w_0> …`            → `ids <id…>`
+//!   `med <T> <mode> <total> <n> <w_0> …`                               → `med <position> <left_weight>`
+//!   `pos2 <w> <h> <i>` → `pos x y`      `idx2 <w> <h> <x> <y>` → `idx i`      `len2 <w> <h>` → `len n`
+//!   `pos3 <w> <h> <d> <i>` → `pos x y z` `idx3 <w> <h> <d> <x> <y> <z>` → `idx i` `len3 <w> <h> <d>` → `len n`
+//! other outcomes: `panic file:line: message`, `hang` (watchdog), `bad-op`.
+//!
+//! Oracle (from the ids and the weights alone): the ids describe a recursive bisection
+//! into axis-aligned boxes (bit `iter-1-L` of the id is a step function of the level's
+//! coordinate inside the level-`L` box), every id is below `2^iter`, and every cut is
+//! balanced within 1 % of half of the box's weight (plus one unit for integer weights)
+//! or adjacent to the slab that holds the half-weight mark.
 
 use crate::common::*;
+use coupe::rayon::ThreadPool;
+use std::collections::BTreeMap;
+use std::num::NonZeroUsize;
+use std::sync::{Arc, Mutex};
 
-pub fn generate(_ctx: &mut Ctx) {}
+const THREADS: [usize; 6] = [1, 2, 3, 4, 8, 16];
+const WATCHDOG_SECS: u64 = 20;
+/// generation stops after this many watchdog timeouts (each costs `WATCHDOG_SECS`
+/// and leaves a spinning thread behind)
+const MAX_HANGS: u64 = 6;
+
+// ------------------------------------------------------------------ pools
+
+/// One rayon pool per size, built on first use (building up to 16 threads per
+/// case would dominate the exhaustive sweep). A pool in which a call hung is
+/// dropped from the cache: its workers are busy for ever.
+static POOLS: Mutex<BTreeMap<usize, Arc<ThreadPool>>> = Mutex::new(BTreeMap::new());
+
+fn pool(threads: usize) -> Arc<ThreadPool> {
+    let mut g = POOLS.lock().unwrap_or_else(|e| e.into_inner());
+    g.entry(threads)
+        .or_insert_with(|| {
+            Arc::new(
+                coupe::rayon::ThreadPoolBuilder::new()
+                    .num_threads(threads)
+                    .build()
+                    .expect("pool"),
+            )
+        })
+        .clone()
+}
+
+fn forget_pool(threads: usize) {
+    let mut g = POOLS.lock().unwrap_or_else(|e| e.into_inner());
+    g.remove(&threads);
+}
+
+/// Run `f` inside the pool of `threads` workers, under the watchdog.
+fn in_pool<R: Send + 'static>(threads: usize, f: impl FnOnce() -> R + Send + 'static) -> Caught<R> {
+    let p = pool(threads);
+    let r = catch_timeout(WATCHDOG_SECS, move || p.install(f));
+    if let Caught::Hang = r {
+        forget_pool(threads);
+    }
+    r
+}
+
+// ------------------------------------------------------------------ ops
+
+#[derive(Clone, Debug)]
+enum Op {
+    Rcb { t: usize, float: bool, dims: Vec<usize>, iter: usize, plen: usize, ws: Vec<i64> },
+    Med { t: usize, float: bool, total: i64, ws: Vec<i64> },
+    Pos { dims: Vec<usize>, i: usize },
+    Idx { dims: Vec<usize>, pos: Vec<usize> },
+    Len { dims: Vec<usize> },
+}
+
+fn mode_str(float: bool) -> &'static str {
+    if float {
+        "f"
+    } else {
+        "i"
+    }
+}
+
+fn fmt_rcb(t: usize, float: bool, dims: &[usize], iter: usize, plen: usize, ws: &[i64]) -> String {
+    let mut s = format!("rcb{} {} {} {} {} {} {}", dims.len(), t, mode_str(float), join(dims), iter, plen, ws.len());
+    if !ws.is_empty() {
+        s.push(' ');
+        s.push_str(&join(ws));
+    }
+    s
+}
+
+fn fmt_med(t: usize, float: bool, total: i64, ws: &[i64]) -> String {
+    let mut s = format!("med {} {} {} {}", t, mode_str(float), total, ws.len());
+    if !ws.is_empty() {
+        s.push(' ');
+        s.push_str(&join(ws));
+    }
+    s
+}
+
+fn parse_mode(s: &str) -> Option<bool> {
+    match s {
+        "i" => Some(false),
+        "f" => Some(true),
+        _ => None,
+    }
+}
+
+fn take<T: std::str::FromStr>(it: &mut std::str::SplitWhitespace<'_>, n: usize) -> Option<Vec<T>> {
+    let mut v = Vec::with_capacity(n.min(1 << 16));
+    for _ in 0..n {
+        v.push(it.next()?.parse().ok()?);
+    }
+    Some(v)
+}
+
+fn parse_op(op: &str) -> Option<Op> {
+    let mut it = op.split_whitespace();
+    let name = it.next()?;
+    let parsed = match name {
+        "rcb2" | "rcb3" => {
+            let d = if name == "rcb2" { 2 } else { 3 };
+            let t: usize = it.next()?.parse().ok()?;
+            let float = parse_mode(it.next()?)?;
+            let dims: Vec<usize> = take(&mut it, d)?;
+            let rest: Vec<usize> = take(&mut it, 3)?;
+            let (iter, plen, n) = (rest[0], rest[1], rest[2]);
+            let ws: Vec<i64> = take(&mut it, n)?;
+            // `NonZeroUsize` sides; a pool of 0 threads means "default size" to rayon
+            if dims.iter().any(|&s| s == 0) || t == 0 || t > 64 {
+                return None;
+            }
+            Op::Rcb { t, float, dims, iter, plen, ws }
+        }
+        "med" => {
+            let t: usize = it.next()?.parse().ok()?;
+            let float = parse_mode(it.next()?)?;
+            let total: i64 = it.next()?.parse().ok()?;
+            let n: usize = it.next()?.parse().ok()?;
+            let ws: Vec<i64> = take(&mut it, n)?;
+            if t == 0 || t > 64 {
+                return None;
+            }
+            Op::Med { t, float, total, ws }
+        }
+        "pos2" | "pos3" => {
+            let d = if name == "pos2" { 2 } else { 3 };
+            let dims: Vec<usize> = take(&mut it, d)?;
+            let i: usize = it.next()?.parse().ok()?;
+            if dims.iter().any(|&s| s == 0) {
+                return None;
+            }
+            Op::Pos { dims, i }
+        }
+        "idx2" | "idx3" => {
+            let d = if name == "idx2" { 2 } else { 3 };
+            let dims: Vec<usize> = take(&mut it, d)?;
+            let pos: Vec<usize> = take(&mut it, d)?;
+            if dims.iter().any(|&s| s == 0) {
+                return None;
+            }
+            Op::Idx { dims, pos }
+        }
+        "len2" | "len3" => {
+            let d = if name == "len2" { 2 } else { 3 };
+            let dims: Vec<usize> = take(&mut it, d)?;
+            if dims.iter().any(|&s| s == 0) {
+                return None;
+            }
+            Op::Len { dims }
+        }
+        _ => return None,
+    };
+    if it.next().is_some() {
+        return None;
+    }
+    Some(parsed)
+}
+
+fn nz(x: usize) -> NonZeroUsize {
+    NonZeroUsize::new(x).expect("non-zero side")
+}
+
+fn grid2(d: &[usize]) -> coupe::Grid<2> {
+    coupe::Grid::new_2d(nz(d[0]), nz(d[1]))
+}
+
+fn grid3(d: &[usize]) -> coupe::Grid<3> {
+    coupe::Grid::new_3d(nz(d[0]), nz(d[1]), nz(d[2]))
+}
+
+// ------------------------------------------------------------------ oracle
+
+/// Per-node statistics of the oracle (land in the histogram).
+#[derive(Default)]
+struct NodeStats {
+    within: u64,
+    adjacent_only: u64,
+    empty_low: u64,
+}
+
+/// The balance clause of the property for one cut: `slabs` are the weights of the
+/// slabs of the box along the cut's coordinate, `k` the number of slabs on the low
+/// side, `unit` = 1 for integer weights (the "plus one unit"), 0 for `f64` weights.
+/// `Ok(true)` = within 1 % of half, `Ok(false)` = only the adjacency clause holds.
+fn balance_clause(slabs: &[i128], k: usize, unit: i128) -> Result<bool, String> {
+    let w: i128 = slabs.iter().sum();
+    let l: i128 = slabs[..k].iter().sum();
+    if 200 * l >= 99 * w - 200 * unit && 200 * l <= 101 * w + 200 * unit {
+        return Ok(true);
+    }
+    // the cut is adjacent to the slab that contains the half-weight mark: slab `v`
+    // just below or just above the cut with pre(v) <= W/2 <= pre(v+1)
+    let mut cands = vec![];
+    if k >= 1 {
+        cands.push(k - 1);
+    }
+    if k < slabs.len() {
+        cands.push(k);
+    }
+    for v in cands {
+        let pre_v: i128 = slabs[..v].iter().sum();
+        let pre_v1 = pre_v + slabs[v];
+        if 2 * pre_v <= w && w <= 2 * pre_v1 {
+            return Ok(false);
+        }
+    }
+    Err(format!("W={} L={} cut after {} of {} slabs, slabs={:?}", w, l, k, slabs.len(), slabs))
+}
+
+struct BoxCheck<'a> {
+    d: usize,
+    dims: [usize; 3],
+    iter: usize,
+    ids: &'a [usize],
+    ws: &'a [i64],
+    unit: i128,
+    stats: NodeStats,
+}
+
+impl BoxCheck<'_> {
+    /// row major / row-then-column major layout of `weights` and `partition`
+    fn cell(&self, p: [usize; 3]) -> usize {
+        p[0] + self.dims[0] * (p[1] + self.dims[1] * p[2])
+    }
+
+    /// cells of the box `lo..hi` whose coordinate `c` equals `v`
+    fn slab_cells(&self, lo: [usize; 3], hi: [usize; 3], c: usize, v: usize) -> Vec<usize> {
+        let (mut lo, mut hi) = (lo, hi);
+        lo[c] = v;
+        hi[c] = v + 1;
+        let mut out = vec![];
+        for z in lo[2]..hi[2] {
+            for y in lo[1]..hi[1] {
+                for x in lo[0]..hi[0] {
+                    out.push(self.cell([x, y, z]));
+                }
+            }
+        }
+        out
+    }
+
+    fn check(&mut self, lo: [usize; 3], hi: [usize; 3], level: usize, c: usize) -> Result<(), (&'static str, String)> {
+        if (0..3).any(|a| lo[a] >= hi[a]) {
+            return Ok(()); // no cell
+        }
+        if level == self.iter {
+            // a leaf: one id
+            let first = self.ids[self.cell(lo)];
+            for v in lo[c]..hi[c] {
+                for i in self.slab_cells(lo, hi, c, v) {
+                    if self.ids[i] != first {
+                        return Err((
+                            "not-a-box",
+                            format!("leaf box {:?}..{:?} holds ids {} and {}", lo, hi, first, self.ids[i]),
+                        ));
+                    }
+                }
+            }
+            return Ok(());
+        }
+        let shift = self.iter - 1 - level;
+        let mut slabs: Vec<i128> = vec![];
+        let mut bits: Vec<usize> = vec![];
+        for v in lo[c]..hi[c] {
+            let cells = self.slab_cells(lo, hi, c, v);
+            let mut s = 0i128;
+            let b0 = (self.ids[cells[0]] >> shift) & 1;
+            for &i in &cells {
+                s += self.ws[i] as i128;
+                if (self.ids[i] >> shift) & 1 != b0 {
+                    return Err((
+                        "not-a-box",
+                        format!(
+                            "level {} box {:?}..{:?}: bit {} of the ids varies inside the slab {} of coordinate {}",
+                            level, lo, hi, shift, v, c
+                        ),
+                    ));
+                }
+            }
+            slabs.push(s);
+            bits.push(b0);
+        }
+        let k = bits.iter().position(|&b| b == 1).unwrap_or(bits.len());
+        if bits[k..].iter().any(|&b| b == 0) {
+            return Err((
+                "not-a-box",
+                format!(
+                    "level {} box {:?}..{:?}: bit {} along coordinate {} is {:?}, not a step",
+                    level, lo, hi, shift, c, bits
+                ),
+            ));
+        }
+        match balance_clause(&slabs, k, self.unit) {
+            Ok(true) => self.stats.within += 1,
+            Ok(false) => self.stats.adjacent_only += 1,
+            Err(m) => {
+                return Err((
+                    "unbalanced",
+                    format!("level {} box {:?}..{:?} coord {} cut p={}: {}", level, lo, hi, c, lo[c] + k, m),
+                ))
+            }
+        }
+        if k == 0 {
+            self.stats.empty_low += 1;
+        }
+        let p = lo[c] + k;
+        let (mut lhi, mut hlo) = (hi, lo);
+        lhi[c] = p;
+        hlo[c] = p;
+        let next = (c + 1) % self.d;
+        self.check(lo, lhi, level + 1, next)?;
+        self.check(hlo, hi, level + 1, next)
+    }
+}
+
+/// The property statement on one output of `Grid::rcb` (`ids.len() == ws.len() == grid len`,
+/// weights non-negative).
+fn rcb_oracle(
+    dims: &[usize],
+    iter: usize,
+    float: bool,
+    ids: &[usize],
+    ws: &[i64],
+) -> Result<NodeStats, (&'static str, String)> {
+    if iter < usize::BITS as usize {
+        if let Some((i, id)) = ids.iter().enumerate().find(|(_, &id)| id >> iter != 0) {
+            return Err(("id-out-of-range", format!("cell {} has id {} >= 2^{}", i, id, iter)));
+        }
+    }
+    let mut d3 = [1usize; 3];
+    d3[..dims.len()].copy_from_slice(dims);
+    let mut chk = BoxCheck {
+        d: dims.len(),
+        dims: d3,
+        iter,
+        ids,
+        ws,
+        unit: if float { 0 } else { 1 },
+        stats: NodeStats::default(),
+    };
+    // `Grid::rcb` starts with coordinate 1
+    chk.check([0; 3], d3, 0, 1)?;
+    Ok(chk.stats)
+}
+
+// ------------------------------------------------------------------ runner
 
 pub fn run_op(ctx: &mut Ctx, op: &str) {
-    ctx.record(op.to_string(), "bad-op".into(), false);
+    let Some(parsed) = parse_op(op) else {
+        ctx.count("bad-op");
+        ctx.record(op.to_string(), "bad-op".into(), false);
+        return;
+    };
+    match parsed {
+        Op::Rcb { t, float, dims, iter, plen, ws } => run_rcb(ctx, op, t, float, dims, iter, plen, ws),
+        Op::Med { t, float, total, ws } => run_med(ctx, op, t, float, total, ws),
+        Op::Pos { dims, i } => {
+            let glen: u128 = dims.iter().map(|&s| s as u128).product();
+            let d = dims.clone();
+            let r = catch(move || {
+                if d.len() == 2 {
+                    let g = grid2(&d);
+                    let p = coupe::verif_cartesian::position_of(g, i);
+                    (p.to_vec(), coupe::verif_cartesian::index_of(g, p))
+                } else {
+                    let g = grid3(&d);
+                    let p = coupe::verif_cartesian::position_of(g, i);
+                    (p.to_vec(), coupe::verif_cartesian::index_of(g, p))
+                }
+            });
+            let in_range = (i as u128) < glen;
+            let mut verdict = None;
+            let out = match r {
+                Caught::Ok((p, back)) => {
+                    if in_range {
+                        if p.iter().zip(&dims).any(|(x, s)| x >= s) {
+                            verdict = Some(("index-map", format!("position_of({}) = {:?} outside {:?}", i, p, dims)));
+                        } else if back != i {
+                            verdict = Some(("index-map", format!("index_of(position_of({})) = {}", i, back)));
+                        }
+                    }
+                    format!("pos {}", join(&p))
+                }
+                Caught::Panic(m) => {
+                    verdict = Some(("panic", format!("{} [{}]", m, panic_sig(&m))));
+                    format!("panic {}", m)
+                }
+                Caught::Hang => unreachable!(),
+            };
+            ctx.count("out_pos");
+            let idx = ctx.record(op.to_string(), out, in_range && glen >= 2);
+            if let Some((sig, what)) = verdict {
+                ctx.fail(idx, sig, what);
+            }
+        }
+        Op::Idx { dims, pos } => {
+            let glen: u128 = dims.iter().map(|&s| s as u128).product();
+            let in_range = pos.iter().zip(&dims).all(|(x, s)| x < s);
+            let (d, p) = (dims.clone(), pos.clone());
+            let r = catch(move || {
+                if d.len() == 2 {
+                    let g = grid2(&d);
+                    let i = coupe::verif_cartesian::index_of(g, [p[0], p[1]]);
+                    (i, coupe::verif_cartesian::position_of(g, i).to_vec())
+                } else {
+                    let g = grid3(&d);
+                    let i = coupe::verif_cartesian::index_of(g, [p[0], p[1], p[2]]);
+                    (i, coupe::verif_cartesian::position_of(g, i).to_vec())
+                }
+            });
+            let mut verdict = None;
+            let out = match r {
+                Caught::Ok((i, back)) => {
+                    // x + w*(y + h*z)
+                    let z = if dims.len() == 3 { pos[2] as u128 } else { 0 };
+                    let h = dims[1] as u128;
+                    let want = pos[0] as u128 + dims[0] as u128 * (pos[1] as u128 + h * z);
+                    if i as u128 != want {
+                        verdict = Some(("index-map", format!("index_of({:?}) = {} but x + w*(y + h*z) = {}", pos, i, want)));
+                    } else if in_range && (i as u128 >= glen || back != pos) {
+                        verdict = Some(("index-map", format!("index_of({:?}) = {}, position_of gives {:?}", pos, i, back)));
+                    }
+                    format!("idx {}", i)
+                }
+                Caught::Panic(m) => {
+                    verdict = Some(("panic", format!("{} [{}]", m, panic_sig(&m))));
+                    format!("panic {}", m)
+                }
+                Caught::Hang => unreachable!(),
+            };
+            ctx.count("out_idx");
+            let idx = ctx.record(op.to_string(), out, in_range && glen >= 2);
+            if let Some((sig, what)) = verdict {
+                ctx.fail(idx, sig, what);
+            }
+        }
+        Op::Len { dims } => {
+            let d = dims.clone();
+            let r = catch(move || {
+                if d.len() == 2 {
+                    coupe::verif_cartesian::len(grid2(&d))
+                } else {
+                    coupe::verif_cartesian::len(grid3(&d))
+                }
+            });
+            let want: u128 = dims.iter().map(|&s| s as u128).product();
+            let mut verdict = None;
+            let out = match r {
+                Caught::Ok(n) => {
+                    if n as u128 != want {
+                        verdict = Some(("index-map", format!("len = {} for sides {:?}", n, dims)));
+                    }
+                    format!("len {}", n)
+                }
+                Caught::Panic(m) => {
+                    verdict = Some(("panic", format!("{} [{}]", m, panic_sig(&m))));
+                    format!("panic {}", m)
+                }
+                Caught::Hang => unreachable!(),
+            };
+            ctx.count("out_len");
+            let idx = ctx.record(op.to_string(), out, want >= 2);
+            if let Some((sig, what)) = verdict {
+                ctx.fail(idx, sig, what);
+            }
+        }
+    }
+}
+
+#[allow(clippy::too_many_arguments)]
+fn run_rcb(ctx: &mut Ctx, op: &str, t: usize, float: bool, dims: Vec<usize>, iter: usize, plen: usize, ws: Vec<i64>) {
+    let glen: usize = dims.iter().product();
+    let n = ws.len();
+    let (d, w2) = (dims.clone(), ws.clone());
+    let res = in_pool(t, move || {
+        let mut partition = vec![usize::MAX; plen];
+        match (d.len(), float) {
+            (2, false) => grid2(&d).rcb(&mut partition, &w2, iter),
+            (2, true) => {
+                let wf: Vec<f64> = w2.iter().map(|&w| w as f64).collect();
+                grid2(&d).rcb(&mut partition, &wf, iter)
+            }
+            (_, false) => grid3(&d).rcb(&mut partition, &w2, iter),
+            (_, true) => {
+                let wf: Vec<f64> = w2.iter().map(|&w| w as f64).collect();
+                grid3(&d).rcb(&mut partition, &wf, iter)
+            }
+        }
+        partition
+    });
+    let well_formed = n == glen && plen == glen && ws.iter().all(|&w| w >= 0);
+    let nontrivial = well_formed && glen >= 2 && iter >= 1;
+    let mut verdict: Option<(&str, String)> = None;
+    let out = match res {
+        Caught::Ok(ids) => {
+            ctx.count("out_ids");
+            if well_formed {
+                match rcb_oracle(&dims, iter, float, &ids, &ws) {
+                    Ok(st) => {
+                        ctx.count("oracle_rcb_checked");
+                        *ctx.hist.entry("oracle_nodes_within_1pct".into()).or_insert(0) += st.within;
+                        *ctx.hist.entry("oracle_nodes_adjacent_clause_only".into()).or_insert(0) += st.adjacent_only;
+                        *ctx.hist.entry("oracle_nodes_empty_low_side".into()).or_insert(0) += st.empty_low;
+                    }
+                    Err((sig, what)) => verdict = Some((sig, what)),
+                }
+            }
+            format!("ids {}", join(&ids))
+        }
+        Caught::Panic(m) => {
+            if n < glen {
+                // malformed input (weights shorter than the grid): the documented layout is
+                // violated by the caller, an index panic is the expected outcome
+                ctx.count("out_panic_short_weights");
+            } else {
+                ctx.count("out_panic");
+                verdict = Some(("panic", format!("{} [{}]", m, panic_sig(&m))));
+            }
+            format!("panic {}", m)
+        }
+        Caught::Hang => {
+            ctx.count("hang");
+            verdict = Some(("hang", format!("no return within {} s on a pool of {} thread(s)", WATCHDOG_SECS, t)));
+            "hang".into()
+        }
+    };
+    let idx = ctx.record(op.to_string(), out, nontrivial);
+    if let Some((sig, what)) = verdict {
+        ctx.fail(idx, sig, what);
+    }
+}
+
+fn run_med(ctx: &mut Ctx, op: &str, t: usize, float: bool, total: i64, ws: Vec<i64>) {
+    let n = ws.len();
+    let w2 = ws.clone();
+    let res = in_pool(t, move || {
+        if float {
+            let wf: Vec<f64> = w2.iter().map(|&w| w as f64).collect();
+            let (p, l) = coupe::verif_cartesian::weighted_median_f64(&wf, total as f64);
+            (p, l as i64, l.fract() == 0.0 && l.is_finite())
+        } else {
+            let (p, l) = coupe::verif_cartesian::weighted_median_i64(&w2, total);
+            (p, l, true)
+        }
+    });
+    let sum: i128 = ws.iter().map(|&w| w as i128).sum();
+    let plain = ws.iter().all(|&w| w >= 0) && sum == total as i128;
+    let nontrivial = plain && n >= 2;
+    let mut verdict: Option<(&str, String)> = None;
+    let out = match res {
+        Caught::Ok((p, l, integral)) => {
+            ctx.count("out_med");
+            if p > n {
+                verdict = Some(("median-position", format!("position {} beyond {} weights", p, n)));
+            } else {
+                let pre: i128 = ws[..p].iter().map(|&w| w as i128).sum();
+                if pre != l as i128 || !integral {
+                    verdict = Some(("median-prefix", format!("left_weight {} but the {} first weights sum to {}", l, p, pre)));
+                } else if plain {
+                    ctx.count("oracle_med_checked");
+                    if p >= n.max(1) {
+                        verdict = Some(("median-position", format!("position {} with {} weights", p, n)));
+                    } else {
+                        let slabs: Vec<i128> = ws.iter().map(|&w| w as i128).collect();
+                        match balance_clause(&slabs, p, if float { 0 } else { 1 }) {
+                            Ok(true) => ctx.count("oracle_med_within_1pct"),
+                            Ok(false) => ctx.count("oracle_med_adjacent_clause_only"),
+                            Err(m) => verdict = Some(("unbalanced", format!("weighted_median position {}: {}", p, m))),
+                        }
+                    }
+                } else {
+                    ctx.count("oracle_med_prefix_only");
+                }
+            }
+            format!("med {} {}", p, l)
+        }
+        Caught::Panic(m) => {
+            ctx.count("out_panic");
+            verdict = Some(("panic", format!("{} [{}]", m, panic_sig(&m))));
+            format!("panic {}", m)
+        }
+        Caught::Hang => {
+            ctx.count("hang");
+            verdict = Some(("hang", format!("no return within {} s on a pool of {} thread(s)", WATCHDOG_SECS, t)));
+            "hang".into()
+        }
+    };
+    let idx = ctx.record(op.to_string(), out, nontrivial);
+    if let Some((sig, what)) = verdict {
+        ctx.fail(idx, sig, what);
+    }
+}
+
+// ------------------------------------------------------------------ generator
+
+fn too_many_hangs(ctx: &Ctx) -> bool {
+    ctx.hist.get("hang").copied().unwrap_or(0) >= MAX_HANGS
+}
+
+const SHAPES: [&str; 8] = ["ones", "small", "wide", "sparse", "skewed", "zeros", "gradient", "heavy_line"];
+
+/// Weights of a grid (`dims` padded to 3 sides) in one of the shapes of `SHAPES`.
+fn gen_weights(rng: &mut Rng, dims: &[usize], shape: usize) -> Vec<i64> {
+    let mut d3 = [1usize; 3];
+    d3[..dims.len()].copy_from_slice(dims);
+    let n: usize = d3.iter().product();
+    let pos = |i: usize| [i % d3[0], (i / d3[0]) % d3[1], i / d3[0] / d3[1]];
+    match shape {
+        0 => vec![1; n],
+        1 => (0..n).map(|_| rng.range(0, 9)).collect(),
+        2 => (0..n).map(|_| rng.range(0, 1_000_000)).collect(),
+        3 => (0..n).map(|_| if rng.chance(9, 10) { 0 } else { rng.range(1, 100) }).collect(),
+        4 => {
+            let mut v: Vec<i64> = (0..n).map(|_| rng.range(0, 9)).collect();
+            let k = rng.usize(n);
+            v[k] = rng.range(1_000_000, 1_000_000_000);
+            v
+        }
+        5 => vec![0; n],
+        6 => {
+            // grows with one coordinate
+            let a = rng.usize(dims.len());
+            let step = rng.range(1, 50);
+            let noise = rng.range(0, 3);
+            (0..n).map(|i| pos(i)[a] as i64 * step + rng.range(0, noise)).collect()
+        }
+        _ => {
+            // one heavy row / column / plane
+            let a = rng.usize(dims.len());
+            let line = rng.usize(d3[a]);
+            let heavy = rng.range(100, 100_000);
+            (0..n).map(|i| if pos(i)[a] == line { heavy + rng.range(0, 9) } else { rng.range(0, 3) }).collect()
+        }
+    }
+}
+
+fn run_rcb_case(ctx: &mut Ctx, t: usize, float: bool, dims: &[usize], iter: usize, ws: &[i64]) {
+    let glen: usize = dims.iter().product();
+    let op = fmt_rcb(t, float, dims, iter, glen, ws);
+    run_op(ctx, &op);
+}
+
+fn fixed_cases(ctx: &mut Ctx) {
+    // D4 witness: a single-threaded pool used to spin for ever (one chunk, no progress)
+    let before = ctx.ops.len();
+    run_rcb_case(ctx, 1, false, &[4, 4], 2, &[1; 16]);
+    run_op(ctx, &fmt_med(1, false, 16, &[4, 4, 4, 4]));
+    for t in [1, 2, 3] {
+        // 1x1 and 1x1x1 grids
+        for iter in 0..=3 {
+            for w in [0, 1, 7] {
+                run_rcb_case(ctx, t, false, &[1, 1], iter, &[w]);
+                run_rcb_case(ctx, t, true, &[1, 1], iter, &[w]);
+                run_rcb_case(ctx, t, false, &[1, 1, 1], iter, &[w]);
+            }
+        }
+        // all-zero weights
+        for iter in 0..=3 {
+            run_rcb_case(ctx, t, false, &[3, 3], iter, &[0; 9]);
+            run_rcb_case(ctx, t, true, &[4, 2], iter, &[0; 8]);
+            run_rcb_case(ctx, t, false, &[2, 2, 2], iter, &[0; 8]);
+            run_rcb_case(ctx, t, false, &[1, 5], iter, &[0; 5]);
+        }
+        // more iterations than the grid has cells to separate
+        run_rcb_case(ctx, t, false, &[2, 1], 6, &[1, 1]);
+        run_rcb_case(ctx, t, false, &[1, 3], 6, &[1, 1, 1]);
+        run_rcb_case(ctx, t, true, &[1, 3], 6, &[2, 0, 1]);
+        run_rcb_case(ctx, t, false, &[2, 2, 2], 6, &[1; 8]);
+        run_rcb_case(ctx, t, false, &[3, 1, 2], 6, &[1, 2, 3, 4, 5, 6]);
+        // the repository's own examples (2x2 and 4x4x4 unit weights)
+        run_rcb_case(ctx, t, true, &[2, 2], 2, &[1; 4]);
+        run_rcb_case(ctx, t, true, &[4, 4, 4], 3, &[1; 64]);
+    }
+    // D4-like shapes at every pool size: long axes of equal slabs
+    for &t in &THREADS {
+        run_rcb_case(ctx, t, false, &[4, 4], 2, &[1; 16]);
+        run_rcb_case(ctx, t, false, &[1, 16], 4, &[1; 16]);
+        run_rcb_case(ctx, t, false, &[16, 1], 4, &[1; 16]);
+        run_op(ctx, &fmt_med(t, false, 64, &[1; 64]));
+        run_op(ctx, &fmt_med(t, true, 64, &[1; 64]));
+        run_op(ctx, &fmt_med(t, false, 0, &[]));
+        run_op(ctx, &fmt_med(t, false, 5, &[5]));
+        run_op(ctx, &fmt_med(t, false, 3, &[2, 1]));
+    }
+    let n = (ctx.ops.len() - before) as u64;
+    *ctx.hist.entry("fixed_cases".into()).or_insert(0) += n;
+}
+
+/// Next vector over `{0,1,2}` in odometer order; `false` after the last one.
+fn next_vector(v: &mut [i64]) -> bool {
+    for x in v.iter_mut() {
+        if *x < 2 {
+            *x += 1;
+            return true;
+        }
+        *x = 0;
+    }
+    false
+}
+
+/// Every weight vector over `{0,1,2}` on the grid `w x h`, each with every iteration count
+/// of `iters` and every pool size of `threads` (`one_combo` = false) or with one pair drawn
+/// from the PRNG (`one_combo` = true); `float_every` = run mode `f` too on every k-th vector.
+fn exhaustive_grid(
+    ctx: &mut Ctx,
+    w: usize,
+    h: usize,
+    iters: &[usize],
+    threads: &[usize],
+    one_combo: bool,
+    float_every: usize,
+) -> u64 {
+    let mut v = vec![0i64; w * h];
+    let mut count = 0u64;
+    let mut k = 0usize;
+    loop {
+        let float_too = k % float_every == 0;
+        if one_combo {
+            // iteration counts 2 and 3 (both coordinates cut) twice as likely as 0 and 1
+            let iter = *ctx.rng.pick(&[0usize, 1, 2, 2, 3, 3]);
+            let t = *ctx.rng.pick(threads);
+            run_rcb_case(ctx, t, false, &[w, h], iter, &v);
+            count += 1;
+            if float_too {
+                run_rcb_case(ctx, t, true, &[w, h], iter, &v);
+                count += 1;
+            }
+        } else {
+            for &iter in iters {
+                for &t in threads {
+                    run_rcb_case(ctx, t, false, &[w, h], iter, &v);
+                    count += 1;
+                    if float_too {
+                        run_rcb_case(ctx, t, true, &[w, h], iter, &v);
+                        count += 1;
+                    }
+                }
+            }
+        }
+        k += 1;
+        if too_many_hangs(ctx) || !next_vector(&mut v) {
+            return count;
+        }
+    }
+}
+
+fn exhaustive(ctx: &mut Ctx) {
+    let iters = [0usize, 1, 2, 3];
+    // pool sizes 1 and 2 give the same chunking (`max(2, T)` chunks), 3 differs from them
+    // on axes of 4 slabs
+    let threads = [1usize, 2, 3];
+    // cells <= full_cells: every vector x every (iter, T); cells <= vec_cells: every vector with
+    // one drawn (iter, T); beyond: `per_grid` random vectors with a drawn (iter, T)
+    let (full_cells, vec_cells) = if ctx.quick() { (6, 9) } else { (9, 9) };
+    let per_grid = ctx.budget(4000, 200_000);
+    let (mut full, mut onec, mut sampled) = (vec![], vec![], vec![]);
+    let (mut n_full, mut n_onec, mut n_sampled) = (0u64, 0u64, 0u64);
+    for w in 1..=4usize {
+        for h in 1..=4usize {
+            let cells = w * h;
+            let float_every = if cells <= 4 { 1 } else { 9 };
+            if cells <= full_cells {
+                let c = exhaustive_grid(ctx, w, h, &iters, &threads, false, float_every);
+                *ctx.hist.entry(format!("exhaustive_{}x{}", w, h)).or_insert(0) += c;
+                n_full += c;
+                full.push(format!("{}x{}", w, h));
+            } else if cells <= vec_cells {
+                let c = exhaustive_grid(ctx, w, h, &iters, &threads, true, float_every);
+                *ctx.hist.entry(format!("every_vector_{}x{}", w, h)).or_insert(0) += c;
+                n_onec += c;
+                onec.push(format!("{}x{}", w, h));
+            } else {
+                for _ in 0..per_grid {
+                    let v: Vec<i64> = (0..cells).map(|_| ctx.rng.range(0, 2)).collect();
+                    let iter = *ctx.rng.pick(&[0usize, 1, 2, 2, 3, 3]);
+                    let t = *ctx.rng.pick(&threads);
+                    let float = ctx.rng.chance(1, 8);
+                    run_rcb_case(ctx, t, float, &[w, h], iter, &v);
+                    ctx.count(&format!("sampled_{}x{}", w, h));
+                    n_sampled += 1;
+                    if too_many_hangs(ctx) {
+                        return;
+                    }
+                }
+                sampled.push(format!("{}x{}", w, h));
+            }
+            if too_many_hangs(ctx) {
+                return;
+            }
+        }
+    }
+    ctx.notes.push(format!(
+        "exhaustive sub-space: 2-D grids [{}] x EVERY weight vector over {{0,1,2}} x iter_count 0..=3 x pool sizes {{1,2,3}} with i64 weights, \
+         and again with f64 weights for every vector on grids of at most 4 cells / every 9th vector on larger ones ({} cases). \
+         Grids [{}]: EVERY weight vector over {{0,1,2}}, each with one (iter_count, pool size) drawn from 0..=3 x {{1,2,3}} ({} cases). \
+         Grids [{}]: {} random vectors over {{0,1,2}} each, drawn (iter_count, pool size), 1/8 of them f64 ({} cases).",
+        full.join(" "),
+        n_full,
+        onec.join(" "),
+        n_onec,
+        sampled.join(" "),
+        per_grid,
+        n_sampled
+    ));
+}
+
+/// A side length in `1..=max`, biased toward small values.
+fn side(rng: &mut Rng, max: usize) -> usize {
+    match rng.usize(10) {
+        0..=3 => 1 + rng.usize(max.min(4)),
+        4..=6 => 1 + rng.usize(max.min(10)),
+        _ => 1 + rng.usize(max),
+    }
+}
+
+fn random_rcb(ctx: &mut Ctx) {
+    let n = ctx.budget(600, 30000);
+    for _ in 0..n {
+        if too_many_hangs(ctx) {
+            return;
+        }
+        let three_d = ctx.rng.chance(1, 3);
+        let dims: Vec<usize> = if three_d {
+            match ctx.rng.usize(8) {
+                // a line or a plane in 3-D
+                0 => {
+                    let mut d = vec![1, 1, 1];
+                    d[ctx.rng.usize(3)] = 1 + ctx.rng.usize(10);
+                    d
+                }
+                1 => {
+                    let mut d = vec![side(&mut ctx.rng, 10), side(&mut ctx.rng, 10), side(&mut ctx.rng, 10)];
+                    d[ctx.rng.usize(3)] = 1;
+                    d
+                }
+                _ => vec![side(&mut ctx.rng, 10), side(&mut ctx.rng, 10), side(&mut ctx.rng, 10)],
+            }
+        } else {
+            match ctx.rng.usize(8) {
+                // extreme aspect ratios
+                0 => vec![1, 1 + ctx.rng.usize(40)],
+                1 => vec![1 + ctx.rng.usize(40), 1],
+                2 => vec![1 + ctx.rng.usize(2), 20 + ctx.rng.usize(21)],
+                3 => vec![20 + ctx.rng.usize(21), 1 + ctx.rng.usize(2)],
+                _ => vec![side(&mut ctx.rng, 40), side(&mut ctx.rng, 40)],
+            }
+        };
+        let shape = ctx.rng.usize(SHAPES.len());
+        let ws = gen_weights(&mut ctx.rng, &dims, shape);
+        let iter = ctx.rng.usize(7);
+        let t = *ctx.rng.pick(&THREADS);
+        let float = ctx.rng.chance(1, 4);
+        ctx.count(&format!("rcb{}_shape_{}", dims.len(), SHAPES[shape]));
+        ctx.count(&format!("rcb_T_{}", t));
+        ctx.count(&format!("rcb_iter_{}", iter));
+        ctx.count(if float { "rcb_mode_f" } else { "rcb_mode_i" });
+        let glen: usize = dims.iter().product();
+        ctx.count(match glen {
+            1 => "rcb_cells_1",
+            2..=16 => "rcb_cells_2..16",
+            17..=128 => "rcb_cells_17..128",
+            _ => "rcb_cells_129..1600",
+        });
+        run_rcb_case(ctx, t, float, &dims, iter, &ws);
+    }
+}
+
+fn random_med(ctx: &mut Ctx) {
+    let cases = ctx.budget(1500, 40000);
+    for _ in 0..cases {
+        if too_many_hangs(ctx) {
+            return;
+        }
+        let n = match ctx.rng.usize(10) {
+            0..=2 => ctx.rng.usize(4),
+            3..=5 => ctx.rng.usize(17),
+            _ => ctx.rng.usize(201),
+        };
+        let shape = ctx.rng.usize(SHAPES.len());
+        let mut ws = if n == 0 { vec![] } else { gen_weights(&mut ctx.rng, &[n], shape) };
+        let mut float = ctx.rng.chance(1, 4);
+        let t = *ctx.rng.pick(&THREADS);
+        let mut kind = "plain";
+        if n > 0 && ctx.rng.chance(1, 20) {
+            // some negative weights (outside the property's quantifier; the model follows them)
+            float = false;
+            kind = "negative";
+            for _ in 0..1 + ctx.rng.usize(3) {
+                let k = ctx.rng.usize(n);
+                ws[k] = -ctx.rng.range(1, 20);
+            }
+        }
+        let sum: i64 = ws.iter().sum();
+        let mut total = sum;
+        if ctx.rng.chance(1, 10) {
+            kind = if kind == "negative" { "negative" } else { "other_total" };
+            total = match ctx.rng.usize(6) {
+                0 => 0,
+                1 => sum + ctx.rng.range(1, 10),
+                2 => sum - ctx.rng.range(1, 10),
+                3 => sum * 2 + 1,
+                4 => sum / 2,
+                _ => sum / 3,
+            };
+        }
+        ctx.count(&format!("med_{}", kind));
+        ctx.count(&format!("med_shape_{}", SHAPES[shape]));
+        ctx.count(&format!("med_T_{}", t));
+        ctx.count(if float { "med_mode_f" } else { "med_mode_i" });
+        ctx.count(match n {
+            0 => "med_n_0",
+            1 => "med_n_1",
+            2..=3 => "med_n_2..3",
+            4..=16 => "med_n_4..16",
+            _ => "med_n_17..200",
+        });
+        run_op(ctx, &fmt_med(t, float, total, &ws));
+    }
+}
+
+fn index_maps(ctx: &mut Ctx) {
+    let cases = ctx.budget(300, 3000);
+    // every cell of two small grids: position_of / index_of are mutually inverse
+    for i in 0..12 {
+        run_op(ctx, &format!("pos2 4 3 {}", i));
+        run_op(ctx, &format!("idx2 4 3 {} {}", i % 4, i / 4));
+    }
+    for i in 0..24 {
+        run_op(ctx, &format!("pos3 2 3 4 {}", i));
+        run_op(ctx, &format!("idx3 2 3 4 {} {} {}", i % 2, (i / 2) % 3, i / 6));
+    }
+    for _ in 0..cases {
+        let big = ctx.rng.chance(1, 5);
+        let three_d = ctx.rng.chance(1, 2);
+        let m = if three_d {
+            if big {
+                100_000
+            } else {
+                12
+            }
+        } else if big {
+            1_000_000
+        } else {
+            50
+        };
+        let dims: Vec<usize> = (0..if three_d { 3 } else { 2 }).map(|_| 1 + ctx.rng.usize(m)).collect();
+        let glen: u64 = dims.iter().map(|&s| s as u64).product();
+        let tag = if three_d { "3" } else { "2" };
+        match ctx.rng.usize(5) {
+            0 | 1 => {
+                let i = match ctx.rng.usize(6) {
+                    0 => 0,
+                    1 => glen - 1,
+                    _ => ctx.rng.below(glen),
+                };
+                ctx.count(&format!("index_pos{}", tag));
+                run_op(ctx, &format!("pos{} {} {}", tag, join(&dims), i));
+            }
+            2 | 3 => {
+                let pos: Vec<usize> = dims
+                    .iter()
+                    .map(|&s| match ctx.rng.usize(6) {
+                        0 => 0,
+                        1 => s - 1,
+                        _ => ctx.rng.usize(s),
+                    })
+                    .collect();
+                ctx.count(&format!("index_idx{}", tag));
+                run_op(ctx, &format!("idx{} {} {}", tag, join(&dims), join(&pos)));
+            }
+            _ => {
+                ctx.count(&format!("index_len{}", tag));
+                run_op(ctx, &format!("len{} {}", tag, join(&dims)));
+            }
+        }
+    }
+}
+
+fn malformed(ctx: &mut Ctx) {
+    let cases = ctx.budget(40, 400);
+    for _ in 0..cases {
+        if too_many_hangs(ctx) {
+            return;
+        }
+        let three_d = ctx.rng.chance(1, 3);
+        let dims: Vec<usize> = (0..if three_d { 3 } else { 2 }).map(|_| 1 + ctx.rng.usize(if three_d { 4 } else { 6 })).collect();
+        let glen: usize = dims.iter().product();
+        let iter = ctx.rng.usize(5);
+        let t = *ctx.rng.pick(&THREADS);
+        let float = ctx.rng.chance(1, 4);
+        let (n, plen, key) = match ctx.rng.usize(5) {
+            0 => (ctx.rng.usize(glen), glen, "malformed_weights_short"),
+            1 => (glen + 1 + ctx.rng.usize(4), glen, "malformed_weights_long"),
+            2 => (glen, ctx.rng.usize(glen), "malformed_partition_short"),
+            3 => (glen, glen + 1 + ctx.rng.usize(4), "malformed_partition_long"),
+            _ => (ctx.rng.usize(glen + 3), ctx.rng.usize(glen + 3), "malformed_both"),
+        };
+        let ws: Vec<i64> = (0..n).map(|_| ctx.rng.range(0, 9)).collect();
+        ctx.count(key);
+        run_op(ctx, &fmt_rcb(t, float, &dims, iter, plen, &ws));
+    }
+    // unparseable lines
+    for op in [
+        "rcb2 2 i 0 3 1 0 0",
+        "rcb3 2 i 2 0 2 1 0 0",
+        "rcb2 2 x 1 1 1 1 1 1",
+        "rcb2 2 i 2 2 1 4 4 1 1 1",
+        "rcb2 2 i 2 2 1 4 4 1 1 1 1 1",
+        "med 2 i 3",
+        "med 2 q 3 1 3",
+        "rcb4 1 i 1 1 1 1 1 1",
+    ] {
+        ctx.count("malformed_unparseable");
+        run_op(ctx, op);
+    }
+}
+
+pub fn generate(ctx: &mut Ctx) {
+    fixed_cases(ctx);
+    if !too_many_hangs(ctx) {
+        exhaustive(ctx);
+    }
+    random_rcb(ctx);
+    random_med(ctx);
+    index_maps(ctx);
+    malformed(ctx);
+    if too_many_hangs(ctx) {
+        ctx.notes.push(format!(
+            "generation cut short after {} watchdog timeouts ({} s each)",
+            MAX_HANGS, WATCHDOG_SECS
+        ));
+    }
+}
+
+#[cfg(test)]
+mod tests {
+    use super::*;
+
+    fn sig(r: Result<NodeStats, (&'static str, String)>) -> &'static str {
+        match r {
+            Ok(_) => "ok",
+            Err((s, _)) => s,
+        }
+    }
+
+    #[test]
+    fn oracle_accepts_and_rejects() {
+        // 2x2 unit weights, two iterations: first cut along y, then along x
+        assert_eq!(sig(rcb_oracle(&[2, 2], 2, false, &[0, 1, 2, 3], &[1; 4])), "ok");
+        // first cut along x instead of y: bit 1 varies inside a y-slab
+        assert_eq!(sig(rcb_oracle(&[2, 2], 2, false, &[0, 2, 1, 3], &[1; 4])), "not-a-box");
+        // checkerboard
+        assert_eq!(sig(rcb_oracle(&[2, 2], 1, false, &[0, 1, 1, 0], &[1; 4])), "not-a-box");
+        // high side below the low side
+        assert_eq!(sig(rcb_oracle(&[1, 4], 1, false, &[1, 1, 0, 0], &[1; 4])), "not-a-box");
+        assert_eq!(sig(rcb_oracle(&[2, 2], 1, false, &[0, 0, 2, 2], &[1; 4])), "id-out-of-range");
+        assert_eq!(sig(rcb_oracle(&[2, 2], 0, false, &[0, 0, 0, 1], &[1; 4])), "id-out-of-range");
+        // 1x6, equal slabs of 10: cut after 1 slab is neither within 1 % nor next to the slab with the mark
+        assert_eq!(sig(rcb_oracle(&[1, 6], 1, false, &[0, 1, 1, 1, 1, 1], &[10; 6])), "unbalanced");
+        assert_eq!(sig(rcb_oracle(&[1, 6], 1, false, &[0, 0, 0, 1, 1, 1], &[10; 6])), "ok");
+        // adjacent to the slab holding the mark (slab 2 spans 20..30, the mark is 30)
+        assert_eq!(sig(rcb_oracle(&[1, 6], 1, false, &[0, 0, 1, 1, 1, 1], &[10; 6])), "ok");
+        // a dominant slab: cutting on either side of it is all that can be done
+        assert_eq!(sig(rcb_oracle(&[1, 3], 1, false, &[0, 1, 1], &[1, 100, 1])), "ok");
+        assert_eq!(sig(rcb_oracle(&[1, 3], 1, false, &[0, 0, 1], &[1, 100, 1])), "ok");
+        assert_eq!(sig(rcb_oracle(&[1, 3], 1, false, &[1, 1, 1], &[1, 100, 1])), "unbalanced");
+        // the second level is checked inside each half: low half cut 1|5 of weight 60
+        assert_eq!(
+            sig(rcb_oracle(&[6, 2], 2, false, &[0, 1, 1, 1, 1, 1, 2, 2, 2, 3, 3, 3], &[10; 12])),
+            "unbalanced"
+        );
+        assert_eq!(
+            sig(rcb_oracle(&[6, 2], 2, false, &[0, 0, 0, 1, 1, 1, 2, 2, 2, 3, 3, 3], &[10; 12])),
+            "ok"
+        );
+        // 3-D: coordinates 1, 2, 0 in turn
+        assert_eq!(sig(rcb_oracle(&[2, 2, 2], 3, false, &[0, 1, 4, 5, 2, 3, 6, 7], &[1; 8])), "ok");
+        assert_eq!(sig(rcb_oracle(&[2, 2, 2], 3, false, &[0, 1, 2, 3, 4, 5, 6, 7], &[1; 8])), "not-a-box");
+        // one unit of slack for integers only: W = 200, L = 98
+        assert!(balance_clause(&[98, 102], 1, 1).is_ok());
+        assert!(balance_clause(&[97, 0, 0, 103], 1, 1).is_err());
+        assert_eq!(sig(rcb_oracle(&[1, 4], 1, true, &[0, 1, 1, 1], &[98, 0, 0, 102])), "unbalanced");
+        assert_eq!(sig(rcb_oracle(&[1, 4], 1, false, &[0, 1, 1, 1], &[98, 0, 0, 102])), "ok");
+    }
+
+    #[test]
+    fn ops_round_trip() {
+        let op = fmt_rcb(3, true, &[2, 3], 4, 6, &[1, 2, 3, 4, 5, 6]);
+        assert_eq!(op, "rcb2 3 f 2 3 4 6 6 1 2 3 4 5 6");
+        assert!(matches!(parse_op(&op), Some(Op::Rcb { t: 3, float: true, iter: 4, plen: 6, .. })));
+        assert!(parse_op("rcb2 3 f 0 3 4 6 6 1 2 3 4 5 6").is_none());
+        assert!(parse_op("rcb2 3 f 2 3 4 6 6 1 2 3 4 5").is_none());
+        assert!(parse_op("rcb2 3 f 2 3 4 6 6 1 2 3 4 5 6 7").is_none());
+        assert_eq!(fmt_med(1, false, 0, &[]), "med 1 i 0 0");
+        assert!(matches!(parse_op("med 1 i 0 0"), Some(Op::Med { t: 1, float: false, total: 0, .. })));
+    }
 }
